@@ -65,6 +65,9 @@ pub enum Api {
     Slice,
     /// As `Slice`, then `from_str` (JSON, RON; falls back to `Slice` for MessagePack).
     Str,
+    /// JSON only: parse into `serde_json::Value` first, then `from_value` (a deserializer that
+    /// can never lend borrowed data); other formats fall back to `Slice`.
+    Value,
 }
 
 /// Deserialize one `T` from the simulated reader.
@@ -83,6 +86,10 @@ pub fn de<T: DeserializeOwned>(fmt: Format, api: Api, r: &mut SimReader) -> Resu
 
 pub fn de_bytes<T: DeserializeOwned>(fmt: Format, api: Api, bytes: &[u8]) -> Result<T, String> {
     match (fmt, api) {
+        (Format::Json | Format::JsonPretty, Api::Value) => {
+            let v: serde_json::Value = serde_json::from_slice(bytes).map_err(|e| e.to_string())?;
+            serde_json::from_value(v).map_err(|e| e.to_string())
+        }
         (Format::Json | Format::JsonPretty, Api::Str) => {
             let s = std::str::from_utf8(bytes).map_err(|e| format!("utf8: {e}"))?;
             serde_json::from_str(s).map_err(|e| e.to_string())
